@@ -7,7 +7,7 @@ import glob, os, subprocess, sys, json
 from concurrent.futures import ThreadPoolExecutor
 REPO = os.environ.get("REPO", "/tmp/devrepo")
 BIN = os.environ.get("KLEVLINT", "/verif/bin/klevlint")
-EXPECTED = {"C03c-m1", "C10b-m2", "C10c-m2", "C12d-m1", "C15-m1", "C15-m3"}
+EXPECTED = {"C03c-m1", "C10b-m2", "C10c-m2", "C12d-m1", "C15-m1", "C15-m3", "C15e-m1"}
 env = dict(os.environ, PATH="/opt/veriftools/go1.26.8/bin:" + os.environ["PATH"], GOFLAGS="-mod=mod", GOPROXY="off", GOSUMDB="off", GOTOOLCHAIN="local")
 env.pop("GOWORK", None)
 flt = sys.argv[1] if len(sys.argv) > 1 else ""
